@@ -136,6 +136,18 @@ def r2_once(ctx, rep, R='C14.R2'):
         mem = [(e, pos) for e, pos in lits if isinstance(e, ast.Compare) and
                isinstance(e.ops[0], ast.In) and norm(e.left) == key]
         ok = len(mem) == 1 and mem[0][1] is False and len(lits) == 1
+        # the key is the path alone: the loop over the inner generator unpacks (path, package)
+        # and the first of the two names is what is tested and recorded
+        loops = [n for n in ast.walk(fi.node) if isinstance(n, ast.For) and isinstance(n.iter, ast.Call)
+                 and call_name(n.iter) == 'find_test_files_']
+        keyed_by_path = len(loops) == 1 and isinstance(loops[0].target, ast.Tuple) and \
+            len(loops[0].target.elts) == 2 and norm(loops[0].target.elts[0]) == key
+        if ok and not keyed_by_path:
+            ok = False
+            rep.bad(R, 'find_test_files: de-duplication key', 'files are de-duplicated by %s, which is '
+                    'not the path alone (the inner generator yields (path, package) pairs): the same '
+                    'file reached under two package labels is loaded twice' % key,
+                    key='once:key', func=fi.qualname, where=ctx.where(fi, fi.node))
         if ok:
             seen = dotted(mem[0][0].comparators[0])
             marks = [n for n in ast.walk(fi.node) if
@@ -204,14 +216,7 @@ def r3_filter_before_import(ctx, rep, R='C14.R3'):
               'a module that the --module filter rejects is still imported', key='filter-before-import',
               func=fi.qualname, where=ctx.where(fi, g.node(hit[0]).ast) if hit else ctx.where(fi, fi.node),
               path=g.describe_path(g.path([g.entry], hit[0], include_start=True) or []) if hit else None)
-    # the name tested is the name imported
-    tests = [c for c in own_calls(fi.node) if is_name(c.func, 'accept')]
-    impc = [c for c in own_calls(fi.node) if call_name(c) == 'import_name']
-    same = bool(tests) and bool(impc) and all(norm(t.args[0]) == norm(impc[0].args[0]) for t in tests)
-    rep.check(same, R, 'the name tested by accept() is the name imported',
-              'accept(%s) vs import_name(%s)' % ([norm(t.args[0]) for t in tests],
-                                                 [norm(c.args[0]) for c in impc]),
-              key='filter-same-name', func=fi.qualname, where=ctx.where(fi, fi.node))
+    tested_name_is_imported_name(ctx, rep, R)
     n = 0
     for f2, call, what in effects.import_sites(ctx.model):
         n += 1
@@ -343,3 +348,31 @@ def r6_longest_prefix_first(ctx, rep, R='C14.R6'):
     rep.check(ok, R, 'get_options: options.prefix sorted by len(path) descending after it is built',
               'the prefixes are not sorted longest first: with nested source roots a module would '
               'get the wrong dotted name', key='prefix-sort', func=fi.qualname, where=ctx.where(fi, fi.node))
+
+
+def tested_name_is_imported_name(ctx, rep, R):
+    """find_suites: what accept() judges is the dotted module name that is then imported (no
+    re-assignment of the variable in between)"""
+    fi = ctx.model.func('find.find_suites')
+    tests = [c for c in own_calls(fi.node) if is_name(c.func, 'accept')]
+    impc = [c for c in own_calls(fi.node) if call_name(c) == 'import_name']
+    same = bool(tests) and bool(impc) and all(norm(t.args[0]) == norm(impc[0].args[0]) for t in tests)
+    if same:
+        gq = ctx.cfg(fi)
+        tn = nodes_calling(gq, lambda c: c in tests)
+        im = nodes_calling(gq, lambda c: c in impc)
+        var = norm(impc[0].args[0])
+        stores = [x.id for x in gq.nodes if x.kind == 'stmt' and isinstance(x.ast, (ast.Assign, ast.AugAssign))
+                  and any(norm(t) == var for t in (x.ast.targets if isinstance(x.ast, ast.Assign)
+                                                   else [x.ast.target]))]
+        heads = {x.id for x in gq.nodes if x.kind == 'for' or
+                 (x.kind == 'test' and isinstance(x.stmt, ast.While))}
+        between = set()
+        for t_ in tn:
+            between |= gq.reach([t_], avoid=set(im) | heads)
+        same = not any(st in between and any(i in gq.reach([st], avoid=heads) for i in im)
+                       for st in stores)
+    rep.check(same, R, 'the name tested by accept() is the name imported',
+              'accept(%s) vs import_name(%s)' % ([norm(t.args[0]) for t in tests],
+                                                 [norm(c.args[0]) for c in impc]),
+              key='filter-same-name', func=fi.qualname, where=ctx.where(fi, fi.node))
